@@ -56,6 +56,20 @@ CHECKS["C20"] = dict(
          "says (validated behaviourally); model M20_vp; the wire level is C02's.",
     technique="Coq proof (induction over definitions) + syntactic comparison of generated code + behavioural oracle", design="5/C20")
 
+CHECKS["C16"] = dict(
+    text="Coq theorems over a hand model of TokenTree/Token, for all hash and signature functions, all offer lists and all orders: "
+         "gather_token never fails; every element is a validly signed offered token chained to genesis through earlier elements; "
+         "verify/get_root_path succeed on elements and only on rooted tokens; the final elements equal the closure of the offers in any "
+         "order while the number of distinct offers is at most the waiting capacity; the waiting area is bounded; content is attached "
+         "only if it hashes to the pointer; the public dump reloads to the same elements, in any chunk order. The old wake-one "
+         "behaviour is proved order-dependent (_refuted). Tied to the real classes by differential runs over all tree shapes x all "
+         "arrival permutations (<= 5/6 tokens) and random larger trees, with a closure oracle evaluated on the implementation.",
+    note="Trusted: Coq kernel; hand model (correspondence-checked, bounded by generated histories); injective renaming of digests and "
+         "signatures for the bulk of the runs; SHA3 and signatures enter only as tables from hashlib/ECCrypto. Completeness assumes "
+         "wire-form predecessor pointers and distinct offers <= unchained_max_size. add() and direct dict writes are not modelled.",
+    technique="Coq proof (invariant + nested induction over the chain reaction), differential correspondence, closure oracle",
+    design="5/C16")
+
 NOT_APPLICABLE = {}
 
 
